@@ -16,7 +16,7 @@
 //!           | N
 //!           | O(rate,epsilon)         -- ApproximatedPoisson::new(rate/10^4, epsilon/10^4)
 //!           | B(T,k)                  -- user-defined model: k jobs at once every T (default steps_iter)
-//! cost     := c(W) | m[w,w,..] | k[w,w,..] | x[w,w,..]
+//! cost     := c(W) | m[w,w,..] | k[w,w,..] | x[w,w,..] | u[w,w,..] (user-defined, trait defaults)
 //! supply   := D | Q(budget,period) | K(budget,deadline,period)
 //! ```
 
@@ -214,6 +214,19 @@ pub enum CostDesc {
     Multiframe(Vec<u64>),
     Curve(Vec<u64>),
     Extrap(Vec<u64>),
+    /// a cost model the *user* wrote against the public trait: it implements only
+    /// `job_cost_iter` (the given per-job costs, cyclically), so the trait's DEFAULT
+    /// `cost_of_jobs` and `least_wcet` run
+    User(Vec<u64>),
+}
+
+/// See [CostDesc::User].
+pub struct UserCost(pub Vec<u64>);
+
+impl JobCostModel for UserCost {
+    fn job_cost_iter<'a>(&'a self) -> Box<dyn Iterator<Item = Service> + 'a> {
+        Box::new(self.0.iter().cycle().map(|x| s(*x)))
+    }
 }
 
 impl CostDesc {
@@ -227,6 +240,7 @@ impl CostDesc {
             CostDesc::Extrap(v) => Box::new(wcet::ExtrapolatingCurve::new(wcet::Curve::new(
                 v.iter().map(|x| s(*x)).collect(),
             ))),
+            CostDesc::User(v) => Box::new(UserCost(if v.is_empty() { vec![0] } else { v.clone() })),
         }
     }
 
@@ -239,6 +253,7 @@ impl fmt::Display for CostDesc {
             CostDesc::Multiframe(v) => write!(f, "m[{}]", join(v, ",")),
             CostDesc::Curve(v) => write!(f, "k[{}]", join(v, ",")),
             CostDesc::Extrap(v) => write!(f, "x[{}]", join(v, ",")),
+            CostDesc::User(v) => write!(f, "u[{}]", join(v, ",")),
         }
     }
 }
@@ -488,6 +503,10 @@ impl<'a> Parser<'a> {
             Some(b'x') => {
                 self.expect(b'[')?;
                 Ok(CostDesc::Extrap(self.num_list(b']')?))
+            }
+            Some(b'u') => {
+                self.expect(b'[')?;
+                Ok(CostDesc::User(self.num_list(b']')?))
             }
             other => Err(format!("bad cost description {:?}", other.map(|b| b as char))),
         }
